@@ -1,4 +1,4 @@
-CONSTANTS MaxLen = 3
+CONSTANTS MaxLen = 3  MinEdits = 0  MaxEdits = 0
           CoinSet = {"BTC", "BCH", "BTG", "GRS"}  SvSet = {"base", "witness_v0"}  IdxSet = {1}
           ScriptIds = {1}  SigSetIds = {1, 2, 3}  BeginSet = {0, 1}  HtBase = {1, 3}
 SPECIFICATION Spec
